@@ -42,6 +42,11 @@ def run(ctx, res):
              ("add", False, [("file", "x%d.dat" % i, b"") for i in range(115)]),
              ("add", True, [("file", "huge.bin", b"h" * 330000), ("file", "tiny.bin", b"t")])]
     history(ctx, res, "fixed", "fd", steps)
+    # past failure (F20): a source whose name is not ascii, in front of files that must still be stored where the rule says
+    for fl in ("fd", "sd"):
+        history(ctx, res, "fixed", fl, [("create", False, [("file", "first.dat", b"1" * 300)]),
+                                        ("add", True, [("file", "caf\u00e9.bin", b"c" * 300), ("file", "AUTO.BAT", b"a" * 316200), ("file", "late.dat", b"l" * 2041)]),
+                                        ("add", False, [("file", "\u00f1", b""), ("eos",), ("file", "x.b\u00e9", b"z"), ("file", "ok.txt", b"t" * 10)])])
     res.sample({"history": ["create fill(320280)", "add 1 byte", "add 115 empty files", "add 330000 then 1 byte"]})
     for i in range(ctx.n(10, 150)):
         used = set()
